@@ -20,7 +20,8 @@ Lemma source_switches :
   src_max_date_len = 127 /\ src_written_date_format = [37; 89; 47; 37; 109; 47; 37; 100] /\
   src_format_cache_exact_match = true /\
   src_year_directive_unconditional = true /\ src_year_directive_month = 12 /\ src_year_directive_day = 31 /\
-  src_file_end_unwinds_own_stack = true.
+  src_file_end_unwinds_own_stack = true /\
+  src_tm_year_base = 1900 /\ src_tm_mday_preset = 1 /\ src_compare_skip_byte = 48.
 Proof. repeat split. Qed.
 
 Definition I_md := [IDir 109; ILit 47; IDir 100].
@@ -177,7 +178,7 @@ Qed.
 (* ------------------------------------------------------------------ cmp_skip0 *)
 Lemma cmp_same_prefix a p q : cmp_skip0 (a ++ p) (a ++ q) = cmp_skip0 p q.
 Proof.
-  induction a as [|c a IH]; [reflexivity|]. cbn [app cmp_skip0].
+  induction a as [|c a IH]; [reflexivity|]. cbn [app cmp_skip0]; unfold src_compare_skip_byte.
   rewrite Z.eqb_refl. cbn [negb andb]. exact IH.
 Qed.
 
@@ -192,7 +193,7 @@ Lemma cmp_field z v p q :
 Proof.
   intros Hv. unfold field. destruct (z || (10 <=? v)) eqn:E; [apply cmp_same_prefix|].
   apply orb_false_iff in E as [_ E]. apply Z.leb_gt in E.
-  unfold digits2. cbn [app cmp_skip0].
+  unfold digits2. cbn [app cmp_skip0]; unfold src_compare_skip_byte.
   assert (D0 : digit (v / 10) = 48) by (unfold digit; Z.div_mod_to_equations; lia).
   assert (D1 : digit v = 48 + v) by (unfold digit; Z.div_mod_to_equations; lia).
   rewrite D0, D1.
@@ -312,7 +313,7 @@ Lemma routine_ymd_spell cur y m d zm zd s1 s2 :
   parse_routine true cur R_ymd (spell_ymd y m d zm zd s1 s2) = RDate (boost_day_number y m d).
 Proof.
   intros V Hy H1 H2. pose proof (days_in_month_range y m) as Hr. destruct V as [Vm Vd].
-  unfold parse_routine.
+  unfold parse_routine, src_tm_year_base, src_tm_mday_preset.
   assert (L : (src_max_date_len <? Z.of_nat (length (spell_ymd y m d zm zd s1 s2))) = false).
   { apply Z.ltb_ge. pose proof (spell_length y m d zm zd s1 s2). unfold src_max_date_len. lia. }
   rewrite L. rewrite norm_spell by (assumption || lia).
@@ -331,7 +332,7 @@ Lemma routine_md_refuses cur y m d zm zd s1 s2 :
   1400 <= y <= 9999 -> 1 <= m <= 12 -> 1 <= d <= 31 -> is_sep s1 -> is_sep s2 ->
   parse_routine true cur R_md (spell_ymd y m d zm zd s1 s2) = RNone.
 Proof.
-  intros Hy Hm Hd H1 H2. unfold parse_routine.
+  intros Hy Hm Hd H1 H2. unfold parse_routine, src_tm_year_base, src_tm_mday_preset.
   assert (L : (src_max_date_len <? Z.of_nat (length (spell_ymd y m d zm zd s1 s2))) = false).
   { apply Z.ltb_ge. pose proof (spell_length y m d zm zd s1 s2). unfold src_max_date_len. lia. }
   rewrite L. rewrite norm_spell by (assumption || lia).
@@ -427,12 +428,12 @@ Qed.
 
 Lemma cmp_head_mismatch c d p q : c <> d -> c <> 48 -> cmp_skip0 (c :: p) (d :: q) = false.
 Proof.
-  intros H1 H2. cbn [cmp_skip0]. apply Z.eqb_neq in H1, H2. rewrite H1, H2. reflexivity.
+  intros H1 H2. cbn [cmp_skip0]; unfold src_compare_skip_byte. apply Z.eqb_neq in H1, H2. rewrite H1, H2. reflexivity.
 Qed.
 
 Lemma cmp_space_digits2 v w p q : is_space w = true -> cmp_skip0 (digits2 v ++ p) (w :: q) = false.
 Proof.
-  intros W. unfold digits2. cbn [app cmp_skip0].
+  intros W. unfold digits2. cbn [app cmp_skip0]; unfold src_compare_skip_byte.
   assert (N1 : digit (v / 10) <> w).
   { intros <-. rewrite (digit_not_space _ (is_digit_digit _)) in W. discriminate. }
   assert (N2 : digit v <> w).
@@ -526,7 +527,7 @@ Lemma routine_inv conv cur r s dn :
     format_dn (r_items r) dn0 = Some w /\ cmp_skip0 w buf = true /\
     (if has_year (r_raw r) then dn = dn0 else infer_year cur dn0 = DOk dn).
 Proof.
-  unfold parse_routine. destruct (src_max_date_len <? Z.of_nat (length s)); [discriminate|].
+  unfold parse_routine, src_tm_year_base, src_tm_mday_preset. destruct (src_max_date_len <? Z.of_nat (length s)); [discriminate|].
   destruct (strptime _ _ _) as [| |t rest] eqn:S; try discriminate.
   destruct (mk_date _ _ _) as [dn0|e] eqn:M; [|discriminate].
   destruct (format_dn _ dn0) as [w|] eqn:F; [|discriminate].
@@ -649,6 +650,10 @@ Proof.
     { destruct (get_number 0 99 2 s) as [[v r]|]; [eapply IH; exact H | reflexivity]. }
     destruct (c =? 37).
     { destruct (match_char 37 s); [eapply IH; exact H | reflexivity]. }
+    destruct ((c =? 98) || (c =? 66) || (c =? 104)).
+    { destruct (match_names month_names 0 s) as [[v r]|]; [eapply IH; exact H | reflexivity]. }
+    destruct ((c =? 97) || (c =? 65)).
+    { destruct (match_names wday_names 0 s) as [[v r]|]; [eapply IH; exact H | reflexivity]. }
     discriminate.
   - discriminate.
 Qed.
@@ -691,7 +696,7 @@ Lemma routine_none_inv conv cur r s :
   (src_max_date_len <? Z.of_nat (length s)) = false /\
   strptime (r_items r) (if conv then map norm_sep s else s) (mkTm (fst (fst cur) - 1900) 0 1) = PFail.
 Proof.
-  unfold parse_routine. destruct (src_max_date_len <? Z.of_nat (length s)); [discriminate|].
+  unfold parse_routine, src_tm_year_base, src_tm_mday_preset. destruct (src_max_date_len <? Z.of_nat (length s)); [discriminate|].
   destruct (strptime _ _ _) as [| |t rest] eqn:S; try discriminate; [tauto|].
   destruct (mk_date _ _ _); [|discriminate]. destruct (format_dn _ _); [|discriminate].
   destruct (cmp_skip0 _ _); cbn [negb]; [|discriminate].
@@ -703,7 +708,7 @@ Lemma routine_none_of_fail (conv : bool) (cur : ymd) r (s : str) :
   strptime (r_items r) (if conv then map norm_sep s else s) (mkTm (fst (fst cur) - 1900) 0 1) = PFail ->
   parse_routine conv cur r s = RNone.
 Proof.
-  intros L S. unfold parse_routine. rewrite L. cbv beta iota zeta.
+  intros L S. unfold parse_routine, src_tm_year_base, src_tm_mday_preset. rewrite L. cbv beta iota zeta.
   match goal with |- match ?X with _ => _ end = _ => replace X with PFail by (symmetry; exact S) end.
   reflexivity.
 Qed.
@@ -795,7 +800,7 @@ Proof.
   cbn [rev map app].
   rewrite default_readers_eq. cbn [parse_mask].
   rewrite routine_md_refuses by (assumption || lia).
-  unfold parse_routine.
+  unfold parse_routine, src_tm_year_base, src_tm_mday_preset.
   assert (L : (src_max_date_len <? Z.of_nat (length (spell_ymd y m d zm zd s1 s2))) = false).
   { apply Z.ltb_ge. pose proof (spell_length y m d zm zd s1 s2). unfold src_max_date_len. lia. }
   rewrite L. rewrite norm_spell by (assumption || lia).
@@ -823,13 +828,13 @@ Proof.
   rewrite default_readers_eq. cbn [parse_mask].
   set (s := spell_ymd y m d zm zd s1 s2 ++ x :: r).
   destruct (src_max_date_len <? Z.of_nat (length s)) eqn:L.
-  { unfold parse_routine at 1. rewrite L. reflexivity. }
+  { unfold parse_routine at 1; unfold src_tm_year_base, src_tm_mday_preset. rewrite L. reflexivity. }
   assert (N : map norm_sep s = spell_ymd y m d zm zd 47 47 ++ norm_sep x :: map norm_sep r).
   { unfold s. rewrite map_norm_app, norm_spell by (assumption || lia). reflexivity. }
   assert (A1 : parse_routine true cur R_md s = RNone).
   { apply routine_none_of_fail; [exact L|]. rewrite N. replace (r_items R_md) with I_md by reflexivity.
     unfold spell_ymd. rewrite <- app_assoc. apply month_reader_refuses_year. lia. }
-  rewrite A1. unfold parse_routine. rewrite L, N.
+  rewrite A1. unfold parse_routine, src_tm_year_base, src_tm_mday_preset. rewrite L, N.
   replace (r_items R_ymd) with I_ymd by reflexivity.
   rewrite strptime_ymd_spell_rest; try lia.
   2:{ destruct Hx as [?|[?|Hx]]; [tauto | tauto |]. right. right. cbn.
@@ -959,7 +964,7 @@ Proof.
   intros V Hy Hm H1. pose proof (days_in_month_range cy m) as Hr. destruct V as [Vm Vd].
   unfold parse_date, readers_for, conv_for, src_input_format_pushes_front, src_convert_separators_default.
   cbn [rev map app]. rewrite default_readers_eq. cbn [parse_mask].
-  unfold parse_routine at 1.
+  unfold parse_routine at 1; unfold src_tm_year_base, src_tm_mday_preset.
   assert (L : (src_max_date_len <? Z.of_nat (length (spell_md_sep m d zm zd s1))) = false).
   { apply Z.ltb_ge. pose proof (spell_md_length m d zm zd s1). unfold src_max_date_len. lia. }
   rewrite L. rewrite norm_spell_md by (assumption || lia).
@@ -984,7 +989,7 @@ Proof.
   intros V Hy H1. pose proof (days_in_month_range cy m) as Hr. destruct V as [Vm Vd].
   unfold parse_date, readers_for, conv_for, src_input_format_pushes_front, src_convert_separators_default.
   cbn [rev map app]. rewrite default_readers_eq. cbn [parse_mask].
-  unfold parse_routine at 1.
+  unfold parse_routine at 1; unfold src_tm_year_base, src_tm_mday_preset.
   assert (L : (src_max_date_len <? Z.of_nat (length (spell_md_sep m d zm zd s1))) = false).
   { apply Z.ltb_ge. pose proof (spell_md_length m d zm zd s1). unfold src_max_date_len. lia. }
   rewrite L. rewrite norm_spell_md by (assumption || lia).
@@ -1101,7 +1106,7 @@ Lemma parse_custom_roundtrip raw cur y m d w :
 Proof.
   intros Hok HY Hm Hd V Hy F. pose proof (days_in_month_range y m) as Hr.
   unfold parse_date, readers_for, conv_for, src_input_format_pushes_front, src_input_format_disables_conversion.
-  cbn [rev map app parse_mask]. unfold parse_routine.
+  cbn [rev map app parse_mask]. unfold parse_routine, src_tm_year_base, src_tm_mday_preset.
   unfold format_date, format_dn in F. rewrite boost_roundtrip in F by exact V.
   destruct (strftime (lex_fmt raw) y m d) as [w0|] eqn:S; [|discriminate].
   destruct (Z.ltb_spec 126 (Z.of_nat (length w0))) as [L|L]; [discriminate|]. injection F as <-.
